@@ -45,6 +45,11 @@ func (r *Response) Send(_ *PID, msg any, sender *PID) {
 	select {
 	case r.result <- msg:
 	default:
+		// a dead letter about this very mailbox is not reported again: if the
+		// mailbox is subscribed to the event stream it would come straight back.
+		if dl, ok := msg.(DeadLetterEvent); ok && dl.Target != nil && dl.Target.Equals(r.pid) {
+			return
+		}
 		r.engine.BroadcastEvent(DeadLetterEvent{Target: r.pid, Message: msg, Sender: sender})
 	}
 }
